@@ -202,11 +202,11 @@ theorem eliminateSelfJoin_congr {a b : List Rule} (h : RuleSetEq a b) (hc : Cohe
     · rw [ha, hb]
     · rw [ha, hb]
       simp only [parentView, ParentView.mk.injEq] at hv
-      obtain ⟨h1, h2, h3, _, _, h6, h7⟩ := hv
+      obtain ⟨h1, h2, h3, h4, _, h6, h7⟩ := hv
       have hsj : subjRefsAreJoinCols r p = subjRefsAreJoinCols r p' := by
         unfold subjRefsAreJoinCols refsOfRule
         simp only [h1, h2, ↓reduceIte]
-      simp only [h1, h2, h3, h6, h7, hsj]
+      simp only [h1, h2, h3, h4, h6, h7, hsj]
   · simp [hpt]
 
 theorem eliminateSelfJoin_view (rules : List Rule) (r : Rule) :
